@@ -76,7 +76,7 @@ def oracle(req, resp):
     return None
 
 
-def witness_modules():
+def witness_modules(tier="quick"):
     """one-instruction modules, one per section / optional part (the search space for a moved or missing field)"""
     out = []
     for s in SECT:
@@ -95,6 +95,12 @@ def witness_modules():
     # a module whose assembly is longer than 65536 words (22000 three-word instructions in one block): instructions
     # assembled across and beyond the 16-bit range of output offsets
     out.append("trav h:1 s10:1 F d:2 e:3 p:- B l:4 i:" + ",".join(str(k) for k in range(5, 22005)))
+    # many functions / many blocks / many sections entries: nothing depends on how many there are (counts beyond 2^8, 2^12, and - in the
+    # thorough tier - 2^16)
+    for nf in (257, 4097, 5000) + ((66000,) if tier == "thorough" else ()):
+        out.append("trav h:1 s0:1 " + " ".join(f"F d:{10 + 2 * k} e:{11 + 2 * k} p:-" for k in range(nf)))
+    out.append("trav h:0 F d:1 e:2 p:- " + " ".join(f"B l:{10 + 2 * k} i:{11 + 2 * k}" for k in range(4100)))
+    out.append("trav h:1 " + " ".join(f"s{j}:" + ",".join(str(1000 * j + k) for k in range(1, 300)) for j in (0, 1, 2, 4, 5, 6, 7, 8, 9, 10)))
     return out
 
 
@@ -112,7 +118,7 @@ def run(ctx):
         ctx.issue("harness-build", "the harness no longer builds against the working tree: " + herr[-400:])
         return C.finish(ctx)
     rnd = random.Random(ctx.seed)
-    reqs = witness_modules()
+    reqs = witness_modules(ctx.tier)
     counter = [0]
     N = 400 if ctx.tier == "quick" else 6000
     for i in range(N):
@@ -139,8 +145,8 @@ def run(ctx):
                 ctx.issue(f"theorem:{n}", f"Lean obligation no longer checks: {e['msg'][:300]}", witness=e)
     for r in reqs:
         ctx.distinct.add(r)
-    ctx.samples = [{"request": reqs[-1], "implementation": impl[-1]}, {"request": reqs[40], "implementation": impl[40]}]
-    ctx.coverage["witness_modules"] = len(witness_modules())
+    ctx.samples = [{"request": reqs[-1][:300], "implementation": impl[-1][:300]}, {"request": reqs[40][:300], "implementation": impl[40][:300]}]
+    ctx.coverage["witness_modules"] = len(witness_modules(ctx.tier))
     ctx.assumptions += ["iterator chain / flat_map / Option::iter semantics of std as documented",
                         "translator tools/translate/traversals.py accounts for every token of the six iterator bodies and the four assemble_into bodies",
                         "hand model Rspirv/Model/Module.lean tied by the `trav` channel on random module values with every optional part present/absent"]
